@@ -155,6 +155,8 @@ def nontrivial(case):
 def tally(rep, case, impl_res, ans):
     if case.get('probes'):
         rep.count('merged_probes:%d' % len(case['probes']))
+        if any(sorted(p['channel_map']) != list(range(len(p['channel_map']))) for p in case['probes']):
+            rep.count('merged_with_gapped_maps')
     else:
         rep.count('single_dataset')
         rep.count('features:%s' % (case['spec'].get('pc_features') is not None))
@@ -181,7 +183,9 @@ def gen(tier, rng):
         yield dict(p=PID, probes=probes, factor=1)
     for i in range(90 if q else 2000):
         if i % 3 == 0:
-            c = M.merge_case(rng, nprobes=[1, 2, 3, 4][i % 4])
+            # every other merged case uses channel maps with holes (dead channels): the raw-index inversion
+            # is claimed for arbitrary maps
+            c = M.merge_case(rng, nprobes=[1, 2, 3, 4][i % 4], gapped=(i % 2 == 0))
             yield dict(p=PID, probes=c['probes'], factor=[1, 2.5][i % 2], n_closest=rng.pick([2, 3, 12]))
         else:
             spec = DC.dense_spec(rng, raw=(i % 4 == 1), feats=(i % 2 == 0), probes=(i % 5 == 0), empty=['none', 'last', 'middle'][i % 3])
